@@ -33,7 +33,7 @@ ANCHORS = [
 RULE = ("small valid structural map requests (<= 3 functions, sizes <= 3, storages file_array and dict) run into a run "
         "folder in a forked child process; (a) the abstract file-system event trace (mkdir / create / append / close / "
         "replace / rmtree / user call) of the first run and of a resumed run is compared with the model's; (b) the child is "
-        "killed with os._exit at EVERY event index k (an append is torn: half of the bytes are written), or a user function "
+        "(storages file_array, dict and shared_memory_dict) killed with os._exit at EVERY event index k (an append is torn: half of the bytes are written), or a user function "
         "raises at its n-th call, optionally a second crash during the first resume, then a child resumes with "
         "cleanup=False; non-trivial = a crash or raise point; distinct by (specs, shapes, storage, crash points)")
 ASSUMPTIONS = ["sequential semantics (parallel=False); crash points of worker processes are not injected",
@@ -57,6 +57,14 @@ class _Tracer:
         self.half = half
         self.installed = False
 
+    managers = ()
+
+    def stop_managers(self):
+        """Harness hygiene only: the server processes of shared_memory_dict would outlive the killed child."""
+        for m in self.managers:
+            with contextlib.suppress(BaseException):
+                m.shutdown()
+
     def rel(self, p):
         try:
             p = os.path.abspath(os.fspath(p))
@@ -75,6 +83,7 @@ class _Tracer:
         if self.crash_at is not None and len(self.events) == self.crash_at:
             if torn is not None:
                 torn()
+            self.stop_managers()
             os._exit(17)
         self.events.append(ev)
 
@@ -278,7 +287,8 @@ def child_run(spec, outpath):
     tracer = _Tracer(spec["folder"], spec.get("crash_at"), spec.get("half", True))
     res = {}
     try:
-        with contextlib.redirect_stdout(sink):
+        with contextlib.redirect_stdout(sink), c06mod.managed_managers() as made:
+            tracer.managers = made
             if spec.get("inplace"):
                 _inplace_patch()
             p = _build(spec["req"], tracer, spec["logpath"], spec.get("fail_line"))
@@ -362,16 +372,19 @@ def folder_listing(folder):
             q = os.path.relpath(p, folder)
             if TMP_RE.match(q):
                 continue
+            keys = []
             try:
                 with open(p, "rb") as f:
                     if fn.endswith(".json"):
                         json.loads(f.read().decode())
                     else:
-                        cloudpickle.load(f)
+                        obj = cloudpickle.load(f)
+                        if fn == "dict_array.cloudpickle":
+                            keys = sorted([int(x) for x in k] for k in obj)
                 ok = 1
             except Exception:  # noqa: BLE001
                 ok = 0
-            out.append([q, ok])
+            out.append([q, ok, keys])
     return sorted(out)
 
 
@@ -442,7 +455,7 @@ def run_impl(c):
 
 # ------------------------------------------------------------------ Coq literals
 def emit_case(c) -> str:
-    st = "FileSt" if c["req"].get("storage") == "file_array" else "DictSt"
+    st = {"file_array": "FileSt", "dict": "DictSt", "shared_memory_dict": "ShmSt"}[c["req"].get("storage")]
     q = c06mod.req_lit(c["req"])
     if c["kind"] == "events":
         return f"(CEvents {q} {st} {cbool(bool(c.get('old')))})"
@@ -474,14 +487,16 @@ def probe(req, old=False):
         return r1["events"], r2["events"], calls
 
 
-def crash_cases(rng, req, old, every, max_pairs, with_fail=True):
+def crash_cases(rng, req, old, every, max_pairs, with_fail=True, only_fail=False):
     pr = probe(req, old)
     if pr is None:
         return []
     ev1, ev2, calls = pr
     out = []
     ks = list(range(len(ev1) + 1))
-    if not every:
+    if only_fail:
+        ks = []
+    elif not every:
         ks = sorted(rng.sample(ks, min(len(ks), every_n(len(ks)))))
     for k in ks:
         out.append({"kind": "crash", "req": req, "old": old, "fail": None, "k1": k, "k2": None,
@@ -497,7 +512,7 @@ def crash_cases(rng, req, old, every, max_pairs, with_fail=True):
         names = sorted({ln.split("(")[0] for ln in calls})
         for fn in names:
             mine = [ln for ln in calls if ln.split("(")[0] == fn]
-            for n in sorted(rng.sample(range(len(mine)), min(len(mine), 2))):
+            for n in sorted(rng.sample(range(len(mine)), min(len(mine), 3))):
                 out.append({"kind": "crash", "req": req, "old": old, "fail": [fn, n], "fail_line": mine[n], "k1": None,
                             "k2": None, "half": True, "tag": "raise"})
                 if rng.random() < 0.3:
@@ -529,10 +544,18 @@ def generate(rng, tier, mult):
         out.append({"kind": "events", "req": gen_small_req(rng, max_funcs=3, max_size=3), "old": False, "tag": "events"})
     for _ in range(max(2, n_ev // 5)):
         out.append({"kind": "events", "req": gen_small_req(rng, max_funcs=3, max_size=3), "old": True, "tag": "events-old"})
-    n_pipes = (6 if tier == "quick" else 40) * mult
+    n_pipes = (5 if tier == "quick" else 40) * mult
     for q in range(n_pipes):
         st = ["file_array", "dict"][q % 2]
         out += crash_cases(rng, gen_small_req(rng, storage=st), False, every=True, max_pairs=6 if tier == "quick" else 25)
+    # user-function raise points only (run_map persists the memory-based storages in its `finally`)
+    for q in range((6 if tier == "quick" else 80) * mult):
+        st = ["dict", "shared_memory_dict", "file_array", "dict"][q % 4]
+        out += crash_cases(rng, gen_small_req(rng, storage=st, max_funcs=3), False, every=False, max_pairs=0, only_fail=True)
+    # shared_memory_dict: all crash points of a few pipelines
+    for q in range((1 if tier == "quick" else 8) * mult):
+        out += crash_cases(rng, gen_small_req(rng, storage="shared_memory_dict"), False, every=True,
+                           max_pairs=3 if tier == "quick" else 10)
     for q in range((2 if tier == "quick" else 10) * mult):
         st = ["file_array", "dict"][q % 2]
         out += crash_cases(rng, gen_small_req(rng, storage=st), True, every=True, max_pairs=2, with_fail=False)
